@@ -11,6 +11,7 @@ REPLAY = os.path.join(VERIF, 'replay')
 BATTERIES = {
     'C17': [['arena', '5']],
     'C12': [['customs']],
+    'C13': [['names']],
     'C14': [['config']],
     'C08': [['emit-twice'], ['customs']],
     'C06': [['gc']],
